@@ -294,7 +294,10 @@ impl ActorProperties {
         let _ = self
             .status
             .fetch_update(Ordering::SeqCst, Ordering::SeqCst, |f| {
-                if f < (ActorStatus::Stopping as u8) {
+                // An actor that has not been started yet (spawn_instant) stays Unstarted so
+                // that it can still start: the closed admission and the queued drain marker
+                // make it handle its backlog and stop as soon as it runs.
+                if f != (ActorStatus::Unstarted as u8) && f < (ActorStatus::Stopping as u8) {
                     Some(ActorStatus::Draining as u8)
                 } else {
                     None
